@@ -44,7 +44,7 @@ pub fn frame_is_transfer(f: &Frame) -> (r: bool) ensures r == is_transfer(*f) { 
 pub struct FrameError { _p: u8 }
 #[verifier::external_body]
 pub struct IoError { _p: u8 }
-pub enum Error { Io(IoError), Frame(FrameError), FramingError, Other }
+pub enum Error { Io(IoError), Frame(FrameError), FramingError, IdleTimeoutElapsed, Other }
 impl From<FrameError> for Error { #[verifier::external_body] fn from(e: FrameError) -> Self { Error::Frame(e) } }
 impl From<IoError> for Error { #[verifier::external_body] fn from(e: IoError) -> Self { Error::Io(e) } }
 pub struct FrameEncoder { pub max_frame_body_size: usize }
@@ -72,7 +72,37 @@ impl FramedWriteS {
             r is Err ==> final(self).items@ == old(self).items@,
     { unimplemented!() }
 }
-pub struct Transport { pub framed_write: FramedWriteS }
+/// the local idle time-out timer (transport::IdleTimeout): how often it has been restarted, and whether polling it now reports that it ran out
+pub struct IdleTimeoutS { pub resets: Ghost<nat>, pub elapsed: Ghost<bool> }
+pub struct Elapsed {}
+impl IdleTimeoutS {
+    #[verifier::external_body]
+    pub fn reset(&mut self) ensures final(self).resets@ == old(self).resets@ + 1, final(self).elapsed@ == false { unimplemented!() }
+    #[verifier::external_body]
+    pub fn poll(&mut self, cx: &mut Context) -> (r: Poll<Elapsed>)
+        ensures final(self).resets == old(self).resets, final(self).elapsed == old(self).elapsed, (r is Ready) == old(self).elapsed@,
+    { unimplemented!() }
+}
+pub struct Context { pub g: Ghost<int> }
+pub enum Poll<T> { Ready(T), Pending }
+/// FramedRead<_, LengthDelimitedCodec>: yields the next length-delimited item, an error, end of stream, or nothing yet
+pub struct FramedReadS { pub got: Ghost<nat> }
+impl FramedReadS {
+    #[verifier::external_body]
+    pub fn poll_next(&mut self, cx: &mut Context) -> (r: Poll<Option<Result<BytesMut, IoError>>>)
+        ensures (r is Ready) ==> final(self).got@ == old(self).got@ + 1, (r is Pending) ==> final(self).got@ == old(self).got@,
+    { unimplemented!() }
+}
+pub struct FrameDecoder {}
+impl FrameDecoder {
+    /// frames::amqp::FrameDecoder::decode (unit FRAMEDEC)
+    #[verifier::external_body]
+    pub fn decode(&mut self, src: &mut BytesMut) -> (r: Result<Option<Frame>, FrameError>) { unimplemented!() }
+}
+pub fn res_transpose(r: Result<Option<Frame>, Error>) -> (o: Option<Result<Frame, Error>>)
+    ensures o == (match r { Ok(Some(x)) => Some(Ok::<Frame, Error>(x)), Ok(None) => None, Err(e) => Some(Err::<Frame, Error>(e)) }),
+{ match r { Ok(Some(x)) => Some(Ok(x)), Ok(None) => None, Err(e) => Some(Err(e)) } }
+pub struct Transport { pub framed_write: FramedWriteS, pub framed_read: FramedReadS, pub idle_timeout: Option<IdleTimeoutS> }
 
 pub open spec fn flat(items: Seq<Seq<u8>>) -> Seq<u8>
     decreases items.len()
@@ -102,6 +132,7 @@ impl Transport {
         old(self).framed_write.codec.max >= 4,       // established by length_delimited_encoder / set_encoder_max_frame_size: max(MIN_MAX_FRAME_SIZE, n) - 4 >= 508
     ensures
         final(self).framed_write.codec == old(self).framed_write.codec,
+        final(self).idle_timeout == old(self).idle_timeout && final(self).framed_read == old(self).framed_read,     // [C17.idle.sending-does-not-restart] only what the PEER sends counts against the local idle time-out: writing frames leaves the timer alone (otherwise a silent peer is never detected while the local side keeps sending, e.g. its own heartbeats)
         r is Ok ==> final(self).framed_write.items@.len() >= old(self).framed_write.items@.len()
             && final(self).framed_write.items@.take(old(self).framed_write.items@.len() as int) =~= old(self).framed_write.items@,
         r is Ok ==> flat(added_items(*old(self), *final(self))) =~= wire(item),                                              // [C06.transport.no-loss] the length-delimited items written concatenate to exactly the encoded frame(s): nothing lost, duplicated or reordered
@@ -114,6 +145,7 @@ impl Transport {
         invariant
             max_frame_size == self.framed_write.codec.max, max_frame_size >= 4,
             self.framed_write.codec == old(self).framed_write.codec,
+            self.idle_timeout == old(self).idle_timeout, self.framed_read == old(self).framed_read,
             self.framed_write.items@.len() >= items0.len(),
             self.framed_write.items@.take(items0.len() as int) =~= items0,
             bytesmut@.len() > 0,
@@ -139,6 +171,31 @@ impl Transport {
             assert(it1.push(b1).skip(k) =~= it1.skip(k).push(b1));
             assert(it1.push(b1).take(k) =~= items0);
         }
+//@@ end
+
+//@@ fn file=fe2o3-amqp/src/transport/mod.rs impl=`impl<Io> Stream for Transport<Io, amqp::Frame> where Io: AsyncRead + Unpin,` name=poll_next
+//@@ subst `self: std::pin::Pin<&mut Self>` => `&mut self` rule=R3
+//@@ subst `cx: &mut std::task::Context<'_>` => `cx: &mut Context` rule=R11
+//@@ ret Poll<Option<Result<Frame, Error>>>
+//@@ subst `let this = self.project();` => `` rule=R3
+//@@ subst `this.` => `self.` rule=R3
+//@@ subst `.as_pin_mut()` => `.as_mut()` rule=R3
+//@@ subst `err.into()` => `Error::Io(err)` rule=R16
+//@@ subst `amqp::FrameDecoder {}` => `FrameDecoder {}` rule=R11
+//@@ subst `decoder.decode(&mut src).map_err(Into::into).transpose()` => `res_transpose(decoder.decode(&mut src).map_err(|e: FrameError| -> (o: Error) { Error::Frame(e) }))` rule=R17,R19
+//@@ spec
+    ensures
+        final(self).framed_write == old(self).framed_write,
+        // something arrived from the peer (a frame, an empty frame, an error, end of stream): the idle timer starts over
+        final(self).framed_read.got@ == old(self).framed_read.got@ + 1 ==> (match old(self).idle_timeout {
+            Some(t) => final(self).idle_timeout is Some && final(self).idle_timeout->Some_0.resets@ == t.resets@ + 1,          // [C17.idle.restarted-by-incoming] every frame from the peer (heartbeats included) restarts the local idle time-out
+            None => final(self).idle_timeout is None }),
+        // nothing arrived: the timer is not touched, and once it has run out the time-out is reported
+        final(self).framed_read.got@ == old(self).framed_read.got@ ==> (match old(self).idle_timeout {
+            Some(t) => final(self).idle_timeout == Some(t)
+                && (t.elapsed@ ==> r == Poll::Ready(Some(Err::<Frame, Error>(Error::IdleTimeoutElapsed))))                     // [C17.idle.elapsed-reported] peer silent for the whole local idle time-out => IdleTimeoutElapsed, not an endless wait
+                && (!t.elapsed@ ==> r is Pending),
+            None => final(self).idle_timeout is None && r is Pending }),
 //@@ end
 }
 
